@@ -4,7 +4,7 @@
    from Gen/Consts.v and the table of output-field sources from Gen/Exposure.v, both regenerated
    from the Go sources on every run. *)
 From Coq Require Import ZArith List Bool String.
-From DV Require Import Model.Secrecy Proofs.SecrecyProofs Gen.Consts Gen.Exposure.
+From DV Require Import Model.Secrecy Proofs.SecrecyProofs Gen.Consts Gen.SaveFlags Gen.Exposure.
 Import ListNotations.
 Open Scope Z_scope.
 
@@ -18,14 +18,23 @@ Theorem C15_secret_perm_constants :
 Proof. split; vm_compute; reflexivity. Qed.
 Print Assumptions C15_secret_perm_constants.
 
+(* obligation tied to the source: the private key file and the share file are written through
+   key.Save(..., secure = true), i.e. fs.CreateSecureFile (call sites read from key/store.go) *)
+Theorem C15_secret_files_saved_secure :
+  save_secure FKeyPrivate = true /\ save_secure FShare = true.
+Proof. split; reflexivity. Qed.
+Print Assumptions C15_secret_files_saved_secure.
+
 (* for EVERY umask (any integer) and every file that holds the long-term key or a share
    (drand_id.private, dist_key.private, dkg.db), created by the code as it is, the file has no
    group/other permission bit at any moment content is written to it *)
 Theorem C15_modes : forall f umask, file_secret f = true ->
   Forall owner_only
-    (modes_at_writes umask None (file_trace fs_rw_file_perm dkg_bolt_open_perm chain_bolt_open_perm f)).
+    (modes_at_writes umask None
+       (file_trace fs_rw_file_perm dkg_bolt_open_perm chain_bolt_open_perm save_secure f)).
 Proof.
-  intros f umask. apply secret_files_owner_only; apply C15_secret_perm_constants.
+  intros f umask. apply secret_files_owner_only;
+    first [apply C15_secret_perm_constants | apply C15_secret_files_saved_secure].
 Qed.
 Print Assumptions C15_modes.
 
@@ -54,7 +63,7 @@ Print Assumptions C15_dkgdb_mode.
 Theorem C15_chain_db_is_public_data :
   file_secret FChainDb = false /\
   ~ Forall owner_only (modes_at_writes 0 None
-      (file_trace fs_rw_file_perm dkg_bolt_open_perm chain_bolt_open_perm FChainDb)).
+      (file_trace fs_rw_file_perm dkg_bolt_open_perm chain_bolt_open_perm save_secure FChainDb)).
 Proof.
   split; [reflexivity|]. apply bolt_trace_perm_needed. vm_compute. discriminate.
 Qed.
